@@ -136,6 +136,28 @@ impl<'r> Gen<'r> {
             return self.literal(ty);
         }
         let d = depth - 1;
+        // comma (sequence) expressions in every position, and subscripts whose index is a sequence
+        if self.rng.chance(1, 10) {
+            let side = *self.rng.pick(&[Ty::Int, Ty::Float, Ty::Bool]);
+            return format!("({}, {})", self.expr(side, d), self.expr(ty, d));
+        }
+        if self.rng.chance(1, 6) {
+            let v = match ty.scalar() {
+                Ty::Float if ty.dim() == 1 => Some(*self.rng.pick(&[Ty::Float2, Ty::Float3, Ty::Float4])),
+                Ty::Int if ty.dim() == 1 => Some(Ty::Int2),
+                Ty::UInt if ty.dim() == 1 => Some(Ty::UInt3),
+                _ => None,
+            };
+            if let Some(v) = v {
+                let idx = if self.rng.chance(1, 2) {
+                    // a uint-typed sequence, so that the index needs no conversion and stays a bare sequence
+                    format!("({}, {}u)", self.expr(Ty::Int, d), self.rng.below(2))
+                } else {
+                    format!("{}", self.rng.below(2))
+                };
+                return format!("{}[{}]", self.atom(v, d), idx);
+            }
+        }
         match ty {
             Ty::Bool => match self.rng.below(7) {
                 0 => format!("({} && {})", self.expr(Ty::Bool, d), self.expr(Ty::Bool, d)),
